@@ -247,7 +247,9 @@ def _run(res, rng, tier, driver, work):
                 os.remove(p)
         gw = pu.make_gateway(version, persistence_file=path)
         hist = pu.history_lines(rng, version, rng.choice([4, 10, 25]))
-        cut = rng.randrange(len(hist) + 1)
+        if i % 3 == 0:
+            hist = [f"1;255;0;0;17;{version}\n", "1;0;0;0;6;t\n", "1;0;1;0;0;20\n"] + hist
+        cut = rng.randrange(3 if i % 3 == 0 else 0, len(hist) + 1)
         tail = hist[cut:] + ([] if rng.random() < 0.5 else ["255;255;3;0;3;\n"])
         try:
             for line in hist[:cut]:
@@ -256,7 +258,7 @@ def _run(res, rng, tier, driver, work):
                 except Exception:  # noqa: BLE001  (other properties' business)
                     pass
             pers = gw.tasks.persistence
-            if tail and i % 2:
+            if tail and i % 2 and i % 3:
                 # the first line of the tail is handled while the first save writes (after the network was
                 # serialised, before the file is swapped in): the second save has to pick it up
                 real_action, first, tail = pers._perform_file_action, tail[0], tail[1:]
@@ -273,6 +275,17 @@ def _run(res, rng, tier, driver, work):
                 pers._perform_file_action = action
             pers.save_sensors()
             pers.__dict__.pop("_perform_file_action", None)
+            if i % 3 == 0 and gw.sensors:
+                # a firmware update is scheduled for every known node between the two saves: what the nodes
+                # report from now on is answered with reboot requests, and is a report like any other
+                try:
+                    gw.tasks.ota.make_update(list(gw.sensors), 1, 1, bytes(range(48)))
+                except Exception:  # noqa: BLE001
+                    pass
+                reports = [f"{nid};{cid};1;0;{vt};{'1' if str(val) != '1' else '0'}\n"
+                           for nid, s_ in gw.sensors.items() for cid, c_ in s_.children.items()
+                           for vt, val in list(c_.values.items())[:1]][:3]
+                tail = reports or tail        # nothing else happens before the second save
             for line in tail:
                 try:
                     pu.feed(gw, line)
@@ -296,7 +309,7 @@ def _run(res, rng, tier, driver, work):
                 "key": {"kind": "live-not-exact", "fmt": fmt, "field": first_diff(want, got)},
                 "what": f"{fmt}: after lines, a save, more lines and a save by the gateway's own persistence object, "
                         f"loading the file does not give the network held ({first_diff(want, got)})",
-                "replay": {"label": f"live #{i}", "fmt": fmt, "version": version,
+                "replay": {"label": f"live #{i}", "fmt": fmt, "version": version, "update_between": i % 3 == 0,
                            "lines": hist[:cut] + ["<save>"] + tail, "want": want[:1500], "got": got[:1500]}})
     res.rule = (f"corpus (empty network, bare node 0, ids 1/254/255, children without values, NUL/quotes/braces/"
                 f"line separators/astral-plane text, 5000-character name, 4300-digit heartbeat, pending desired values, "
@@ -334,10 +347,43 @@ def first_diff(a, b):
     return "length"
 
 
+def replay_live(r):
+    """lines, a save, (a firmware update scheduled for every node,) more lines, a save — by the gateway's own
+    persistence object; then a fresh load"""
+    work = tempfile.mkdtemp(prefix="verif-c11-")
+    try:
+        path = os.path.join(work, f"live.{r['fmt']}")
+        gw = pu.make_gateway(r["version"], persistence_file=path)
+        for line in r["lines"]:
+            if line == "<save>":
+                gw.tasks.persistence.save_sensors()
+                if r.get("update_between") and gw.sensors:
+                    try:
+                        gw.tasks.ota.make_update(list(gw.sensors), 1, 1, bytes(range(48)))
+                    except Exception:  # noqa: BLE001
+                        pass
+                continue
+            try:
+                pu.feed(gw, line)
+            except Exception:  # noqa: BLE001
+                pass
+        gw.tasks.persistence.save_sensors()
+        want = pu.project_reset(gw.sensors)
+        exc, loaded = pu.fresh_load(path)
+        got = "load-raised:" + type(exc).__name__ if exc is not None else pu.project(loaded)
+        print("held  :", want[:1200])
+        print("loaded:", got[:1200])
+        return 0 if got == want else 1
+    finally:
+        pu.rmtree(work)
+
+
 def replay(payload):
     print(payload)
     r = payload.get("replay", {})
     label = r.get("label", "")
+    if label.startswith("live #") and "lines" in r:
+        return replay_live(r)
     seed = int(os.environ.get("VERIF_SEED", "0"))
     res = Result()
     rng = random.Random(seed * 7919 + 11)
